@@ -39,7 +39,14 @@ R2  validate-before-mutate in merge: no `raise` of merge, or of a validation
     helper it calls, is reachable after a file-system effect; no callee that
     runs after an effect can still refuse the merge's inputs; the same inside
     a builder that merge hands the checked inputs to (at every level of the
-    call chain: no refusal after an effect of that level).
+    call chain: no refusal after an effect of that level).  Reading a
+    @property / cached_property of a repository class runs its getter: a
+    getter that can refuse is a validation step made where the property is
+    first read (also when a callee reads it), so that read must precede every
+    effect; a later read of the same property of the same object only
+    repeats the verdict when an earlier read (or a method of the object that
+    reads it) is executed on every path before every effect and nothing in
+    between stores to what the getter reads.
 R3  the metadata file (the write-mode open / write_text of the `*.json` that
     readers require; the file name followed through constants, locals and
     accessor properties of repository classes) is written last: at every level
@@ -727,6 +734,48 @@ def _const_strings(prog, fn, e, depth=0) -> list[str]:
     return out
 
 
+def getter_reads(prog, fn, e) -> list:
+    """[(attribute node, getter)] for the reads `x.p` in e (nested functions excluded) where x is an object of a
+    repository class and `p` a @property / cached_property of it: the read runs the getter, so whatever the getter
+    does (refuse, touch a file) happens at the place of the read"""
+    cache = prog.__dict__.setdefault('_c10_getter_cache', {})
+    out = []
+    for x in walk_no_nested(e):
+        if not isinstance(x, ast.Attribute) or not isinstance(x.ctx, ast.Load):
+            continue
+        k = (fn.file, fn.qualname, id(x))
+        if k not in cache:
+            g = None
+            try:
+                owner = expr_class(prog, fn, x.value)
+            except Exception:
+                owner = None
+            meth = owner.find_method(x.attr) if owner is not None else None
+            if meth is not None and meth is not fn and any('property' in d for d in meth.decorators()):
+                g = meth
+            cache[k] = g
+        if cache[k] is not None:
+            out.append((x, cache[k]))
+    return out
+
+
+def closure_with_getters(prog, roots) -> list:
+    """functions that run when the roots are called: resolved calls and the getters of the properties read"""
+    seen: dict = {}
+    st = list(roots)
+    while st and len(seen) < 400:
+        f = st.pop()
+        if (f.file, f.qualname) in seen:
+            continue
+        for h in closure(prog, [f]):
+            if (h.file, h.qualname) in seen:
+                continue
+            seen[(h.file, h.qualname)] = h
+            st += [gt for _, gt in getter_reads(prog, h, h.node)]
+    return list(seen.values())
+
+
+
 DELETES = {'os.remove', 'os.unlink', 'shutil.rmtree', 'os.rmdir', 'os.removedirs'}
 COPIES = {'shutil.copy', 'shutil.copy2', 'shutil.copyfile', 'shutil.move', 'shutil.copytree'}
 DELETE_METHODS = {'unlink', 'rmdir'}
@@ -762,8 +811,117 @@ def rule_merge(ctx):
     def meta_in(fn) -> list:
         return [(f, c) for f in closure(prog, [fn]) for c in calls_in(f.node) if is_meta_open(f, c)]
 
+    _memo: dict = {}
+
+    def raises_of(callee) -> list:
+        """explicit raises that can run when callee is called: its closure over resolved calls and, on the way, the
+        getters of the properties it reads"""
+        k = ('r', callee.file, callee.qualname)
+        if k not in _memo:
+            out = list(eff.explicit_raises(callee))
+            have = {(h.file, h.qualname) for h in closure(prog, [callee])}
+            for h in closure_with_getters(prog, [callee]):
+                if (h.file, h.qualname) not in have:
+                    out += [(h, r) for r in walk_no_nested(h.node) if isinstance(r, ast.Raise)]
+            _memo[k] = out
+        return _memo[k]
+
+    def fs_of(callee) -> list:
+        """file-system effects that can happen when callee is called (getters of the properties read included)"""
+        k = ('f', callee.file, callee.qualname)
+        if k not in _memo:
+            out = [f'{h.qualname}:{e_}' for h, _, e_ in eff.fs_effects(callee)]
+            have = {(h.file, h.qualname) for h in closure(prog, [callee])}
+            for h in closure_with_getters(prog, [callee]):
+                if (h.file, h.qualname) not in have:
+                    out += [f'{h.qualname}:{e_}' for _, e_ in eff.direct_fs(h)]
+            _memo[k] = out
+        return _memo[k]
+
+    def steps(fn, e) -> list:
+        """[(node, callee or None, file-system effects)] for what evaluating e runs: the calls and the reads of
+        properties of repository classes (a read runs the getter)"""
+        out = []
+        for c in calls_in(e):
+            callee = resolve_call(prog, fn, c)
+            effs = eff.call_fs(fn, c)
+            if callee is not None:
+                effs = effs + [x for x in fs_of(callee) if x not in effs]
+            out.append((c, callee, effs))
+        for a, gt in getter_reads(prog, fn, e):
+            out.append((a, gt, fs_of(gt)))
+        return out
+
+    def step_name(c, callee) -> str:
+        if isinstance(c, ast.Call):
+            return f'{callee.name if callee is not None else call_name(c)}(…)'
+        return f'the read of property `{norm(c)}`'
+
+    def decided_before(fn, gx, fsx, nid, c, callee):
+        """line of an earlier step of fn that already ran the getter `callee` for the same object, when the read `c` at
+        node nid can only repeat that verdict: the earlier step (a read of the same property, or a method of the same
+        class called on the same object whose closure reads it) is executed on every path to nid, before every
+        file-system effect of fn, the object's name is bound once, and nothing that runs between the two stores to an
+        attribute the getter reads.  None when the read at nid may be the first (or a different) verdict."""
+        if isinstance(c, ast.Call) or not isinstance(c.value, ast.Name):
+            return None
+        recv = c.value.id
+        if recv not in ('self', 'cls') and len(local_defs(fn.node, recv)) != (0 if recv in fn.params else 1):
+            return None
+        getters = [h for h in closure_with_getters(prog, [callee]) if h.cls is callee.cls]
+        reads = {a.attr for h in getters for a in ast.walk(h.node)
+                 if isinstance(a, ast.Attribute) and dotted_name(a.value) == 'self'}
+        k = ('dom', id(gx))
+        if k not in _memo:
+            _memo[k] = gx.dominators(edge_ok=normal)
+        for u in sorted(_memo[k].get(nid, set()) - {nid}):
+            nu = gx.nodes[u]
+            if nu.stmt is None or nu.kind in ('finally', 'dispatch', 'join', 'except'):
+                continue
+            if u in fsx or any(gx.reaches(f, u, edge_ok=normal) for f in fsx):
+                continue
+            same = False
+            for e in _heads(nu):
+                for c2, callee2, _ in steps(fn, e) if e is not None else []:
+                    if callee2 is None:
+                        continue
+                    if isinstance(c2, ast.Attribute):
+                        same |= callee2 == callee and norm(c2.value) == recv
+                    elif isinstance(c2.func, ast.Attribute) and norm(c2.func.value) == recv and callee2.cls is callee.cls:
+                        same |= any(h == callee for h in closure_with_getters(prog, [callee2]))
+            if not same:
+                continue
+            written = set()
+            for w in gx.nodes:
+                if w.id in (u, nid) or w.stmt is None or w.kind in ('finally', 'dispatch', 'join', 'except'):
+                    continue
+                if not (gx.reaches(u, w.id, edge_ok=normal) and gx.reaches(w.id, nid, edge_ok=normal)):
+                    continue
+                for e in _heads(w):
+                    if e is None:
+                        continue
+                    for x in walk_no_nested(e):
+                        if isinstance(x, ast.Attribute) and isinstance(x.ctx, (ast.Store, ast.Del)) and norm(x.value) == recv:
+                            written.add(x.attr)
+                        elif isinstance(x, ast.Call) and isinstance(x.func, ast.Attribute) and x.func.attr in MUTATING_METHODS:
+                            b = x.func.value
+                            while isinstance(b, ast.Subscript):
+                                b = b.value
+                            if isinstance(b, ast.Attribute) and norm(b.value) == recv:
+                                written.add(b.attr)
+                    for c3, callee3, _ in steps(fn, e):
+                        if callee3 is not None and callee3.cls is not None and \
+                                (callee3.cls is callee.cls or callee.cls.is_subclass_of(callee3.cls.name)):
+                            for h in closure_with_getters(prog, [callee3]):
+                                if h.cls is callee3.cls or h.cls is callee.cls:
+                                    written |= {a for a, _, _ in self_attr_stores(h)}
+            if not (reads & written):
+                return int(nu.line)
+        return None
+
     fs_nodes: dict[int, list[str]] = {}
     validation: dict[int, str] = {}
+    val_steps: dict[int, list] = {}
     meta_node = None
     meta_helper = None
     meta_handed = False
@@ -780,12 +938,10 @@ def rule_merge(ctx):
         for e in _heads(n):
             if e is None:
                 continue
-            for c in calls_in(e):
-                effs = eff.call_fs(merge, c)
-                callee = resolve_call(prog, merge, c)
+            for c, callee, effs in steps(merge, e):
                 if effs:
                     fs_nodes.setdefault(n.id, []).extend(effs)
-                    if is_meta_open(merge, c):
+                    if isinstance(c, ast.Call) and is_meta_open(merge, c):
                         meta_node = n.id
                     elif callee is not None and meta_in(callee):
                         meta_node, meta_helper, meta_handed = n.id, callee, False
@@ -793,17 +949,36 @@ def rule_merge(ctx):
                             any(s_.endswith('.json') for s_ in _const_strings(prog, merge, c)):
                         # the helper opens a path it is handed; the caller names the file
                         meta_node, meta_helper, meta_handed = n.id, callee, True
-                elif callee is not None and callee.file.endswith(STORE) and eff.explicit_raises(callee) \
+                elif callee is not None and callee.file.endswith(STORE) and raises_of(callee) \
                         and callee.name not in ('__init__', 'open', 'create', 'append'):
-                    # a helper that only judges: a validation step
-                    validation[n.id] = f'call {callee.qualname} ({len(eff.explicit_raises(callee))} raises)'
+                    # a helper that only judges: a validation step (a property whose getter can refuse is one as well:
+                    # the refusal is made where the property is first read)
+                    if isinstance(c, ast.Call):
+                        what = f'call {callee.qualname} ({len(raises_of(callee))} raises)'
+                    else:
+                        r0 = next((r for _, r in raises_of(callee) if r.exc is not None), None)
+                        what = (f'read of property `{norm(c)}`, whose getter {callee.qualname} can refuse' +
+                                (f' with `{norm(r0.exc)[:70]}`' if r0 is not None else ''))
+                    validation[n.id] = (validation[n.id] + '; ' if n.id in validation else '') + what
+                    val_steps.setdefault(n.id, []).append((c, callee))
                     validators.append(callee)
+    # a property read again after it was read (and could refuse) before every effect only repeats that verdict
+    for nid in sorted(val_steps):
+        if not any(g.reaches(f, nid, edge_ok=normal) for f in fs_nodes):
+            continue
+        lines = [decided_before(merge, g, fs_nodes, nid, c, callee) for c, callee in val_steps[nid]]
+        if all(ln is not None for ln in lines):
+            ctx.ob('C10-R2', merge, f'validation [{validation[nid]}] repeats a verdict reached before every file-system effect', True,
+                   f'the same getter already ran at line {lines[0]} for the same object, and nothing in between stores to what it reads',
+                   line=g.nodes[nid].line)
+            del validation[nid]
     n_rules = sum(1 for v in validation.values() if v.startswith('raise'))
     for chk in validators:
-        n_rules += len(eff.explicit_raises(chk))
+        n_rules += len(raises_of(chk))
     # refusals hidden in callees: an explicit raise in the closure of a call that a file-system effect can precede is a
     # refusal after the fact
     n_late = 0
+    n_early = 0     # refusals that a builder merge hands the inputs to makes before its own first effect
     for n in g.nodes:
         if n.stmt is None or n.kind in ('finally', 'dispatch', 'join', 'except'):
             continue
@@ -813,25 +988,24 @@ def rule_merge(ctx):
         for e in _heads(n):
             if e is None:
                 continue
-            for c in calls_in(e):
-                callee = resolve_call(prog, merge, c)
-                if callee is None:
+            for c, callee, _ in steps(merge, e):
+                if callee is None or decided_before(merge, g, fs_nodes, n.id, c, callee) is not None:
                     continue
-                for h, r in eff.explicit_raises(callee):
+                for h, r in raises_of(callee):
                     if not in_pkg(h) or r.exc is None:
                         continue
                     exc = norm(r.exc)
                     if not exc.startswith(REFUSALS):
                         continue
                     n_late += 1
-                    ctx.ob('C10-R2', merge, f'{callee.name}(…) can refuse with `{exc[:60]}` (in {h.name}, line {r.lineno})', False,
+                    ctx.ob('C10-R2', merge, f'{step_name(c, callee)} can refuse with `{exc[:60]}` (in {h.name}, line {r.lineno})', False,
                            (f'this refusal can only be reached after {fs_nodes[prior[0]][0]} (line {int(g.nodes[prior[0]].line)}) has '
                             'already changed the file system: the merge is refused but the output directory and the moved input '
                             'files stay behind, and the corrected retry fails'), line=r.lineno)
     # ... and inside a callee that performs the first effects itself (a builder that merge hands the checked inputs
     # to): at every level, no refusal after an effect of that level
     def refusals_below(fn, seen):
-        nonlocal n_late
+        nonlocal n_late, n_early
         k = (fn.file, fn.qualname)
         if k in seen or len(seen) > 8:
             return
@@ -842,8 +1016,7 @@ def rule_merge(ctx):
             if n.stmt is None or n.kind in ('finally', 'dispatch', 'join', 'except'):
                 continue
             for e in _heads(n):
-                for c in calls_in(e) if e is not None else []:
-                    effs = eff.call_fs(fn, c)
+                for c, _, effs in steps(fn, e) if e is not None else []:
                     if effs:
                         fsx.setdefault(n.id, []).extend(effs)
         for n in gx.nodes:
@@ -852,6 +1025,8 @@ def rule_merge(ctx):
             prior = [f for f in fsx if f != n.id and gx.reaches(f, n.id, edge_ok=normal)]
             if n.kind == 'stmt' and isinstance(n.stmt, ast.Raise):
                 r = n.stmt
+                if not prior and r.exc is not None:
+                    n_early += 1
                 if prior and r.exc is not None and norm(r.exc).startswith(REFUSALS) and \
                         not any(isinstance(a, ast.ExceptHandler) for a in ancestors(r)):
                     n_late += 1
@@ -861,19 +1036,22 @@ def rule_merge(ctx):
                             'files stay behind, and the corrected retry fails'), line=r.lineno)
                 continue
             for e in _heads(n):
-                for c in calls_in(e) if e is not None else []:
-                    callee = resolve_call(prog, fn, c)
+                for c, callee, _ in steps(fn, e) if e is not None else []:
                     if callee is None:
                         continue
                     if not prior:
-                        if n.id in fsx and eff.fs_effects(callee):
+                        if n.id in fsx and fs_of(callee):
                             refusals_below(callee, seen)
+                        elif n.id not in fsx and in_pkg(callee) and callee.name not in ('__init__', 'open', 'create', 'append'):
+                            n_early += len(raises_of(callee))   # a refusal this level makes before its first effect
                         continue
-                    for h, r in eff.explicit_raises(callee):
+                    if decided_before(fn, gx, fsx, n.id, c, callee) is not None:
+                        continue
+                    for h, r in raises_of(callee):
                         if not in_pkg(h) or r.exc is None or not norm(r.exc).startswith(REFUSALS):
                             continue
                         n_late += 1
-                        ctx.ob('C10-R2', h, f'{callee.name}(…) can refuse with `{norm(r.exc)[:60]}` (in {h.name}, line {int(r.lineno)})',
+                        ctx.ob('C10-R2', h, f'{step_name(c, callee)} can refuse with `{norm(r.exc)[:60]}` (in {h.name}, line {int(r.lineno)})',
                                False,
                                (f'this refusal can only be reached after {fsx[prior[0]][0]} (line {int(gx.nodes[prior[0]].line)}, in '
                                 f'{fn.name}) has already changed the file system: the merge is refused but the output directory and '
@@ -883,13 +1061,12 @@ def rule_merge(ctx):
         if any(f2 != f and g.reaches(f2, f, edge_ok=normal) for f2 in fs_nodes):
             continue
         for e in _heads(g.nodes[f]):
-            for c in calls_in(e) if e is not None else []:
-                callee = resolve_call(prog, merge, c)
-                if callee is not None and eff.fs_effects(callee):
+            for c, callee, _ in steps(merge, e) if e is not None else []:
+                if callee is not None and fs_of(callee):
                     refusals_below(callee, {(merge.file, merge.qualname)})
     ctx.ob('C10-R2', merge, f'{n_late} refusal(s) reachable only after a file-system effect', n_late == 0,
            'every explicit refusal of the merge is decided before the first effect' if n_late == 0 else 'see above', nontrivial=False)
-    ctx.floor('C10-R2', n_rules, 8, 'merge validation rules')
+    ctx.floor('C10-R2', n_rules + n_early + n_late, 8, 'merge validation rules')
     ctx.floor('C10-R2/fs', sum(len(set(v)) for v in fs_nodes.values()), 4, 'file-system effects in merge')
 
     for vid, vwhat in sorted(validation.items()):
